@@ -89,3 +89,8 @@ type AliasB = interface {
 	Transfer(to, from T0, amount T1) R0
 	Flush(ctx T2) (int, error)
 }
+
+// Plain mentions no type of this package in its signatures.
+type Plain interface {
+	Ping(n int, tags ...string) error
+}
